@@ -121,8 +121,11 @@ where
                 if no_duplicates {
                     // There are no duplicate constant constraints. Create a new constraint
                     // to follow the fulfillment of the variable domain constraints.
+                    // Run the element-wise constraint right away (it stores itself): elements that
+                    // are already bound to numbers must be checked now, since no later binding
+                    // may come to trigger it.
                     let c = DistinctFd2Constraint::new(self.u.clone(), x, n);
-                    Ok(state.with_constraint(c))
+                    c.run(state)
                 } else {
                     // If there are duplicate constants in the array, then the constraint is
                     // already violated.
